@@ -30,9 +30,9 @@ from .world import SimClock, World, rng_state_digest
 ALGS = ["cp_als", "cp_apr_mu", "cp_apr_pdnr", "cp_apr_pqnr", "hosvd", "tucker_als", "gcp_lbfgsb"]
 RELS = {
     "cp_als": ["R1", "R1p", "R2", "R4", "R5", "R6", "R7"],
-    "cp_apr_mu": ["R1", "R1p", "R2", "R3", "R4", "R5"],
-    "cp_apr_pdnr": ["R1", "R1p", "R2", "R3", "R4", "R5"],
-    "cp_apr_pqnr": ["R1", "R2", "R3", "R4", "R5"],
+    "cp_apr_mu": ["R1", "R1p", "R2", "R2d", "R3", "R4", "R5"],
+    "cp_apr_pdnr": ["R1", "R1p", "R2", "R2d", "R3", "R4", "R5"],
+    "cp_apr_pqnr": ["R1", "R2", "R2d", "R3", "R4", "R5"],
     "hosvd": ["R1p", "R2", "R6", "R7"],
     "tucker_als": ["R1", "R1p", "R2", "R4", "R5", "R6", "R7"],
     "gcp_lbfgsb": ["R1", "R1p", "R2", "R3", "R4"],
@@ -40,7 +40,7 @@ RELS = {
 # R1/R1p/R2/R3 vary only what the simulator owns (seed, call history, output sink, clock): the arithmetic of
 # the run is the same, so the results must be bit-identical (0.0). A print-only branch that touches the
 # running model shows up as a last-bit difference long before it shows up at any rounding tolerance.
-TOL = {"R1": 0.0, "R1p": 0.0, "R1f": 0.0, "R2": 0.0, "R3": 0.0, "R4": 1e-12, "R5": 1e-8, "R6": 1e-8, "R7": 1e-8}
+TOL = {"R1": 0.0, "R1p": 0.0, "R1f": 0.0, "R2": 0.0, "R2d": 0.0, "R3": 0.0, "R4": 1e-12, "R5": 1e-8, "R6": 1e-8, "R7": 1e-8}
 FIT_TOL = 1e-6
 PQNR_KNOWN_MSG = "ERROR: L-BFGS first iterate is bad"
 
@@ -75,6 +75,12 @@ class EngineC18:
         for idx in itertools.product(*[range(s) for s in shape]):
             if g.random() >= zero_frac:
                 x[idx] = round(g.uniform(0.2, 3.0), 6) if (apr or alg == "gcp_lbfgsb") else round(g.uniform(-2.0, 2.0), 6)
+        if apr and sw.random() < 0.35:
+            # genuine count data, held in integer storage (dense array / sparse values of dtype int64)
+            x = np.ceil(x * 2.0)
+            init_int = True
+        else:
+            init_int = False
         loss = None
         if alg == "gcp_lbfgsb":
             loss = sw.choice(["GAUSSIAN", "POISSON", "GAMMA", "RAYLEIGH"])
@@ -85,7 +91,7 @@ class EngineC18:
         if np.count_nonzero(x) < 2:
             x[tuple(0 for _ in shape)] = 1.25
             x[tuple(s - 1 for s in shape)] = 0.75
-        init: Dict[str, Any] = {"alg": alg, "shape": shape, "x": enc(x), "np_seed": st.u32("np"), "arpack_seed": st.u32("arpack")}
+        init: Dict[str, Any] = {"alg": alg, "shape": shape, "x": enc(x), "np_seed": st.u32("np"), "arpack_seed": st.u32("arpack"), "int_storage": init_int}
         if alg in ("hosvd", "tucker_als"):
             # admissible (non-degenerate) multilinear ranks: r_n <= min(size_n, prod_{m != n} r_m)
             for _ in range(50):
@@ -167,6 +173,10 @@ class EngineC18:
                 "verbosity": g.choice([-1, 0, 1, 3, 6]),
                 "base_printitn": g.choice([0, 1]),
             }
+        if rel == "R2d":
+            # verbosity while the elapsed-time limit fires: the deadline must cut the run at the same
+            # iteration whatever is printed
+            return {"op": "R2d", "at": g.randint(1, 3), "printitn": g.choice([1, 2, 5]), "printinneritn": g.choice([0, 1]), "base_printitn": g.choice([0, 0, 1])}
         if rel == "R3":
             kind = g.choice(["tick", "skew", "backward", "freeze"])
             return {"op": "R3", "kind": kind, "at": g.randint(1, 4), "tick": g.choice([1e-6, 0.5, 30.0])}
@@ -207,6 +217,8 @@ class EngineC18:
         xv = x * scale
         if perm is not None:
             xv = np.transpose(xv, perm)
+        if init.get("int_storage") and scale == 1.0:
+            xv = xv.astype(np.int64)
         if variant.get("sparse"):
             subs = np.argwhere(xv != 0)
             order = np.random.RandomState(variant.get("perm_seed", 0)).permutation(subs.shape[0])
@@ -252,7 +264,7 @@ class EngineC18:
                     init["rank"],
                     algorithm=alg.split("_")[-1],
                     stoptol=0.0,
-                    stoptime=1e6,
+                    stoptime=variant.get("stoptime", 1e6),
                     maxiters=init["maxiters"],
                     maxinneriters=init["maxinneriters"],
                     init=g0,
@@ -384,6 +396,11 @@ class EngineC18:
         elif op == "R2":
             base_v = {"printitn": step["base_printitn"], "verbosity": 1 if step["base_printitn"] else 0}
             var = {"printitn": step["printitn"], "printinneritn": step["printinneritn"], "verbosity": step["verbosity"]}
+        elif op == "R2d":
+            script = {"tick": 1e-3, "events": [{"at": step["at"], "dt": 1e4}]}
+            base_v = {"printitn": step["base_printitn"], "clock": script, "stoptime": 100.0}
+            var = {"printitn": step["printitn"], "printinneritn": step["printinneritn"], "clock": script, "stoptime": 100.0}
+            res.bump("fault:deadline_fires_under_both_verbosities")
         elif op == "R3":
             k = step["kind"]
             if k == "tick":
@@ -489,6 +506,8 @@ class EngineC18:
             return V("same_model", f"relative difference {d:.3e} > {tol:g} between base and variant {step}")
         if op in ("R1", "R1p", "R3", "R4") and base["iters"] != other["iters"]:
             return V("same_iteration_count", f"{base['iters']} vs {other['iters']} iterations")
+        if op == "R2d" and base["iters"] != other["iters"]:
+            return V("same_iteration_count", f"deadline cut after {base['iters']} vs {other['iters']} iterations under other verbosity")
         if op == "R2":
             if base["iters"] != other["iters"]:
                 return V("same_iteration_count", f"{base['iters']} vs {other['iters']} iterations under other verbosity")
